@@ -30,6 +30,20 @@ KIND = {
 }
 
 
+class Reader:
+    """an open reader: the iterator returned by Tensor.items(), not yet consumed. It is a user of the tensor's
+    arrays (it walks pos/crd/vals), so the model counts it as a reference to the tensor object; the worker keeps
+    ONLY the iterator, never the tensor."""
+    __slots__ = ("it",)
+
+    def __init__(self, it):
+        self.it = it
+
+
+def python_built():
+    return Tensor.from_dok({(0,): 1.0}, dimensions=(4,), format="s")
+
+
 def addresses(t):
     """every non-NULL kernel-allocated array of the result, in level order: pos, crd per compressed level, then vals"""
     ct = t.cffi_tensor
@@ -78,14 +92,25 @@ def run_history(ops):
         elif k == "alias":
             if op[2] in names:
                 names[op[1]] = names[op[2]]
+        elif k == "iter":
+            if op[2] in names:
+                src = names[op[2]]
+                r = src if isinstance(src, Reader) else Reader(src.items())
+                del src
+                names[op[1]] = r
+                del r
         elif k == "read":
-            if op[1] in names:
+            if op[1] in names and not isinstance(names[op[1]], Reader):
                 names[op[1]].to_dok()
         elif k == "pickle":
             if op[2] in names:
-                t = pickle.loads(pickle.dumps(names[op[2]]))
+                t = python_built() if isinstance(names[op[2]], Reader) else pickle.loads(pickle.dumps(names[op[2]]))
                 names[op[1]] = t
                 del t
+        elif k == "feed" and op[2] in names and isinstance(names[op[2]], Reader):
+            t = new_tensor(op[3])
+            names[op[1]] = t
+            del t
         elif k == "feed":
             if op[2] in names:
                 src = names[op[2]]
